@@ -107,6 +107,9 @@ def clean(limit=600, c13=False):
             for split in (n, 3, 4):
                 parts = [list(range(0, split)), list(range(split, n))]
                 parts = [p for p in parts if p]
+                if split == 3:
+                    # _localize_clusters may strip every atom from a cluster: such a cluster must not be reported
+                    parts = parts + [[]]
                 count += 1
                 if count > limit:
                     return fails
@@ -259,4 +262,39 @@ def _e2e_one(name, at, bt, c13):
                     bad.append("prototype cell periodic in %s directions" % (None if cell is None else int(np.sum(cell.get_pbc()))))
             if bad:
                 fails.append({"structure": name, "radii": radii, "bond_threshold": bt, "observed": bad[:5]})
+    return fails
+
+
+def unordered_clusters(trials=60):
+    """C13 on clusters whose index list is not ascending and whose atoms have very different radii: the shortcut must pair every atom
+    with its own radius (random periodic H/Cs boxes; the reference is get_dimensionality of the cluster's atoms with the radii of these atoms)"""
+    import matid.geometry as g
+    from ase import Atoms
+    from matid.clustering.cluster import Cluster
+
+    rng = np.random.default_rng(11)
+    fails = []
+    for trial in range(trials):
+        n = int(rng.integers(4, 9))
+        L = float(rng.uniform(5.0, 7.5))
+        pbc = [bool(x) for x in rng.integers(0, 2, size=3)]
+        at = Atoms(numbers=rng.choice([1, 55], size=n), positions=rng.uniform(0, L, size=(n, 3)), cell=[L, L * 1.1, L * 0.9], pbc=pbc)
+        radii = g.get_radii("covalent", at.get_atomic_numbers())
+        dist = g.get_distances(at, radii)
+        k = int(rng.integers(2, n + 1))
+        idx = [int(i) for i in rng.permutation(n)[:k]]
+        for thr in (0.3, 0.8):
+            try:
+                c = Cluster(list(idx), set(at.get_atomic_numbers()[idx].tolist()), None, system=at, distances=dist, radii=radii, bond_threshold=thr)
+                got = c.get_dimensionality()
+                ref = g.get_dimensionality(at[idx], thr, radii=radii[idx])
+            except Exception as e:  # noqa
+                fails.append({"function": "Cluster.get_dimensionality", "observed": "%s: %s" % (type(e).__name__, e)})
+                continue
+            if got != ref:
+                fails.append({"function": "Cluster.get_dimensionality", "numbers": at.get_atomic_numbers().tolist(), "positions": at.get_positions().round(4).tolist(),
+                              "cell": [L, L * 1.1, L * 0.9], "pbc": pbc, "indices": idx, "threshold": thr,
+                              "observed": "Cluster.get_dimensionality() = %r, get_dimensionality(cluster atoms, radii of these atoms) = %r" % (got, ref)})
+        if len(fails) >= 2:
+            break
     return fails
